@@ -166,7 +166,34 @@ def _fmuladd(ex, st, args, I):
     return ex.dom.bin(ex, st, 'fadd', ex.dom.bin(ex, st, 'fmul', a, b), c)
 
 
+def _ctlz(ex, st, args, I):
+    x = args[0]
+    bits = ex.m.resolve(I['ty']).bits
+    if is_z3(x):
+        xs = z3.simplify(x)
+        if not z3.is_bv_value(xs):
+            raise Unsupported('ctlz of a symbolic value')
+        x = xs.as_long()
+    x &= (1 << bits) - 1
+    return bits - x.bit_length()
+
+
+def _cttz(ex, st, args, I):
+    x = args[0]
+    bits = ex.m.resolve(I['ty']).bits
+    if is_z3(x):
+        xs = z3.simplify(x)
+        if not z3.is_bv_value(xs):
+            raise Unsupported('cttz of a symbolic value')
+        x = xs.as_long()
+    x &= (1 << bits) - 1
+    if x == 0:
+        return bits
+    return (x & -x).bit_length() - 1
+
+
 INTRINSICS = [
+    (r'llvm\.ctlz\.', _ctlz), (r'llvm\.cttz\.', _cttz),
     (r'llvm\.lifetime\.', _nop), (r'llvm\.invariant\.', _nop), (r'llvm\.dbg\.', _nop),
     (r'llvm\.experimental\.noalias', _nop), (r'llvm\.assume', _assume),
     (r'llvm\.fabs\.f64', _fabs), (r'llvm\.sqrt\.f64', _sqrt),
